@@ -32,7 +32,7 @@ impl AtomicCounter {
     /// Fetches and returns the current value of the counter.
     #[inline(always)]
     pub fn current(&self) -> usize {
-        self.current.load(Ordering::Relaxed)
+        self.current.load(Ordering::Acquire)
     }
 
     /// Updates the value of the current value of the counter as the given `new_value`.
